@@ -24,21 +24,23 @@ type c12Case struct {
 	ReadChunk int       `json:"readChunk,omitempty"` // every read delivers at most this many bytes
 	Coalesce  bool      `json:"coalesce,omitempty"`  // the receiver starts after the sender has finished
 	PipeCap   int       `json:"pipeCap,omitempty"`
-	SendCtx   []string  `json:"sendCtx,omitempty"` // per envelope: "" (20 s deadline) | "deadline:<ms>" | "cancel:<ms>" (cancelled after that long, no deadline)
+	RecvCtxMs int       `json:"recvCtxMs,omitempty"` // every Receive gets a deadline this far ahead; one that ends on its context is followed by another Receive
+	SendCtx   []string  `json:"sendCtx,omitempty"`   // per envelope: "" (20 s deadline) | "deadline:<ms>" | "cancel:<ms>" (cancelled after that long, no deadline)
 }
 
 type c12Obs struct {
-	SendErr    []string       `json:"sendErr"` // per attempted envelope: "" = Send returned nil, "-" = not attempted
-	Recv       []interface{}  `json:"-"`
-	RecvIDs    []string       `json:"recvIds"`
-	RecvErr    string         `json:"recvErr,omitempty"`
-	RecvPanic  string         `json:"recvPanic,omitempty"`
-	Fired      map[string]int `json:"fired"`
-	Reads      int            `json:"reads"`
-	WireDiff   string         `json:"wireDiff,omitempty"`
-	Frames     int            `json:"frames"`
-	Disruptive bool           `json:"disruptive"`
-	CutMid     bool           `json:"cutMid"`
+	SendErr      []string       `json:"sendErr"` // per attempted envelope: "" = Send returned nil, "-" = not attempted
+	Recv         []interface{}  `json:"-"`
+	RecvIDs      []string       `json:"recvIds"`
+	RecvErr      string         `json:"recvErr,omitempty"`
+	RecvPanic    string         `json:"recvPanic,omitempty"`
+	Fired        map[string]int `json:"fired"`
+	Reads        int            `json:"reads"`
+	WireDiff     string         `json:"wireDiff,omitempty"`
+	Frames       int            `json:"frames"`
+	Disruptive   bool           `json:"disruptive"`
+	CutMid       bool           `json:"cutMid"`
+	RecvTimeouts int            `json:"recvTimeouts,omitempty"` // Receive calls that ended on their own context (and were followed by another one)
 }
 
 func c12Stream(n int, pad int) []EnvSpec {
@@ -54,6 +56,25 @@ func c12Stream(n int, pad int) []EnvSpec {
 			out = append(out, EnvSpec{Kind: "request", ID: id, Method: "get", HasURI: true, URI: "/ping"})
 		default:
 			out = append(out, EnvSpec{Kind: "response", ID: id, Method: "get", Status: "success", Doc: &DocSpec{Kind: "json", JSON: map[string]interface{}{"k": strings.Repeat("v", pad), "n": float64(i)}}})
+		}
+	}
+	return out
+}
+
+// relayStream: messages and responses that carry generic JSON documents which look like envelopes themselves (a node that
+// relays other nodes' commands): a receiver that loses its place inside one of them could take the inner object for an envelope.
+func relayStream(n int) []EnvSpec {
+	var out []EnvSpec
+	for i := 0; i < n; i++ {
+		id := fmt.Sprintf("e%d", i)
+		inner := map[string]interface{}{"id": fmt.Sprintf("inner-%d", i), "method": "set", "uri": "/presence", "type": "text/plain", "resource": "stolen"}
+		if i%2 == 1 {
+			inner = map[string]interface{}{"id": fmt.Sprintf("inner-%d", i), "type": "text/plain", "content": "stolen", "to": "x@y.z"}
+		}
+		if i%3 == 2 {
+			out = append(out, EnvSpec{Kind: "response", ID: id, Method: "get", Status: "success", Doc: &DocSpec{Kind: "json", JSON: inner}})
+		} else {
+			out = append(out, EnvSpec{Kind: "message", ID: id, Doc: &DocSpec{Kind: "json", JSON: inner}})
 		}
 	}
 	return out
@@ -139,10 +160,20 @@ func runC12(c *c12Case) *c12Obs {
 		}
 		obs.RecvPanic = Protect(func() {
 			for len(obs.Recv) < len(built) {
-				ctx, cancel := context.WithTimeout(context.Background(), 40*time.Second)
+				d := 40 * time.Second
+				if c.RecvCtxMs > 0 {
+					d = time.Duration(c.RecvCtxMs) * time.Millisecond
+				}
+				ctx, cancel := context.WithTimeout(context.Background(), d)
 				e, err := TReceive(ctx, tr)
+				timedOut := ctx.Err() != nil
 				cancel()
 				if err != nil {
+					if c.RecvCtxMs > 0 && timedOut && obs.RecvTimeouts < 60 && tr.Connected() {
+						// the receiver's own deadline: it simply asks again (whatever it is handed then must still be genuine)
+						obs.RecvTimeouts++
+						continue
+					}
 					obs.RecvErr = err.Error()
 					return
 				}
@@ -267,7 +298,10 @@ func judgeC12(c *c12Case, obs *c12Obs, o *Outcome) {
 			break
 		}
 	}
-	if !obs.Disruptive {
+	// a receiver that gave up a Receive on its own deadline has failed an operation itself: what it misses afterwards is its
+	// own doing (what it does get must still be genuine, which was judged above)
+	receiverGaveUp := c.RecvCtxMs > 0 && (obs.RecvTimeouts > 0 || strings.Contains(obs.RecvErr, "context deadline exceeded"))
+	if !obs.Disruptive && !receiverGaveUp {
 		for i := 0; i < firstBad; i++ {
 			if i >= len(obs.Recv) || envID(obs.Recv[i]) != c.Stream[i].ID {
 				o.Fail("C12/lost/"+fc, "Send of %q returned nil and nothing was cut, but the receiver got ids %v (receive error: %q). %s", c.Stream[i].ID, obs.RecvIDs, obs.RecvErr, obs.WireDiff)
@@ -293,6 +327,9 @@ func judgeC12(c *c12Case, obs *c12Obs, o *Outcome) {
 				return
 			}
 		}
+	}
+	if obs.RecvTimeouts > 0 {
+		o.Class("receive-timed-out-and-asked-again")
 	}
 	for i := range obs.SendErr {
 		if i < len(c.SendCtx) && c.SendCtx[i] != "" {
@@ -385,6 +422,20 @@ func TestC12Sweep(t *testing.T) {
 			run(&c12Case{Stream: big, PipeCap: cap, TLS: true, ReadPlan: []Fault{{Op: FStall, D: 7000}}, SendCtx: []string{ctx0}})
 		}
 	}
+	// a receiver with short deadlines of its own and a stream that stalls at every offset inside envelopes whose documents
+	// look like envelopes: the Receive that was cut short is followed by more Receives
+	relay := relayStream(3)
+	rn := streamBytes(relay)
+	for k := 1; k < rn; k++ {
+		// one byte per read; the read at offset k stalls past the receiver's deadline, so the next read finds the deadline
+		// passed with the envelope half consumed; afterwards the stream flows normally and the receiver asks again
+		plan := make([]Fault, 0, k+1)
+		for j := 0; j < k; j++ {
+			plan = append(plan, Fault{Op: FPass})
+		}
+		plan = append(plan, Fault{Op: FStall, D: 1500})
+		run(&c12Case{Stream: relay, Coalesce: true, RecvCtxMs: 700, ReadChunk: 1, ReadPlan: plan})
+	}
 	run(&c12Case{Stream: st, WritePlan: []Fault{{Op: FReset}}})
 	run(&c12Case{Stream: st, WritePlan: []Fault{{Op: FPass}, {Op: FPass}, {Op: FReset}}})
 	run(&c12Case{Stream: st, WritePlan: []Fault{{Op: FTimeout}, {Op: FTimeout}, {Op: FTimeout}}})
@@ -442,6 +493,12 @@ func TestC12(t *testing.T) {
 			c.ReadChunk = rapid.IntRange(1, 300).Draw(rt, "chunk")
 		}
 		c.ReadPlan = genFaults(rt, "r", false, 400)
+		if rapid.IntRange(0, 3).Draw(rt, "rctx") == 0 {
+			c.RecvCtxMs = rapid.IntRange(50, 3000).Draw(rt, "recvCtx")
+			if rapid.Bool().Draw(rt, "relay") {
+				c.Stream = relayStream(n)
+			}
+		}
 		if !c.Coalesce && rapid.IntRange(0, 3).Draw(rt, "abandon") == 0 {
 			// some sends are given up on their context while the receiver stalls (longer read stalls make it bite)
 			c.ReadPlan = append([]Fault{{Op: FStall, D: rapid.IntRange(1000, 9000).Draw(rt, "rstall")}}, c.ReadPlan...)
